@@ -3,6 +3,7 @@ package model
 import (
 	"encoding/base64"
 	"fmt"
+	"math"
 	"sort"
 	"strings"
 
@@ -51,6 +52,11 @@ func (v Value) Gnmi() *gpb.TypedValue {
 		return &gpb.TypedValue{Value: &gpb.TypedValue_DecimalVal{DecimalVal: &gpb.Decimal64{Digits: v.I, Precision: v.P}}}
 	case "f":
 		return &gpb.TypedValue{Value: &gpb.TypedValue_FloatVal{FloatVal: v.F}}
+	case "lfinf":
+		// a float leaf-list [1.5, +Inf]: the handlers store it, no JSON document can hold it (a kind of its own:
+		// a case must stay JSON-encodable)
+		return &gpb.TypedValue{Value: &gpb.TypedValue_LeaflistVal{LeaflistVal: &gpb.ScalarArray{Element: []*gpb.TypedValue{
+			{Value: &gpb.TypedValue_FloatVal{FloatVal: 1.5}}, {Value: &gpb.TypedValue_FloatVal{FloatVal: float32(math.Inf(1))}}}}}}
 	case "json":
 		return &gpb.TypedValue{Value: &gpb.TypedValue_JsonVal{JsonVal: []byte(v.S)}}
 	case "ls", "li", "lu", "lb":
